@@ -31,7 +31,7 @@ def batches(tier):
          {'name': 'enum2', 'n': gw.enum_size(2), 'profile': 'enum2'}]
     if tier == 'thorough':
         b.append({'name': 'enum3', 'n': gw.enum_size(3), 'profile': 'enum3'})
-    b.append({'name': 'random', 'n': 40000 if tier == 'quick' else 600000, 'profile': 'random'})
+    b.append({'name': 'random', 'n': 40000 if tier == 'quick' else 2000000, 'profile': 'random'})
     return b
 
 
